@@ -2,6 +2,7 @@
    (step_gen add_cpu, raw): same refusals, same tables in the same insertion order. *)
 From Coq Require Import ZArith List Bool Lia.
 From OV Require Import Base.CInt Emu.MetaDefs Emu.MetaBuildPre Gen.MetaBuild_gen.
+From OV Require Rt.MarkJsonDefs Proofs.MarkJsonProofs.
 Import ListNotations.
 Local Open Scope Z_scope.
 
@@ -9,9 +10,9 @@ Lemma bind_run {A B} (m : M A) (f : A -> M B) st :
   MetaBuildPre.bind m f st = match m st with ROk (a, st') => f a st' | RErr e => RErr e end.
 Proof. reflexivity. Qed.
 
-Ltac mrun := cbv beta iota zeta delta [MetaBuildPre.bind bind_ ret fail ite is_null find_loom calloc_loom loom_init_begin dl_append_looms
-  rd_system_nlooms set_system_nlooms loom_load_metadata loom_find_proc calloc_proc proc_init_begin loom_add_proc
-  proc_load_metadata proc_find_thread calloc_thread thread_init_begin thread_load_metadata proc_add_thread
+Ltac mrun0 := cbv beta iota zeta delta [MetaBuildPre.bind bind_ ret fail ite is_null calloc_loom dl_append_looms
+  rd_system_nlooms set_system_nlooms loom_load_metadata loom_find_proc calloc_proc loom_add_proc
+  proc_load_metadata proc_find_thread calloc_thread thread_load_metadata proc_add_thread
   load_cpus stream_metadata_c load_appid load_rank set_apps set_ranks
   hash_find_proc proc_get_pid rd_loom_is_init hash_add_proc rd_loom_nprocs set_loom_nprocs proc_set_loom
   hash_find_thread thread_get_tid rd_proc_is_init hash_add_thread rd_proc_nthreads set_proc_nthreads thread_set_proc
@@ -49,8 +50,78 @@ Proof. unfold name_eqb. destruct (name_dec n n); [reflexivity|contradiction]. Qe
 Lemma pkey_eqb_refl k : pkey_eqb k k = true.
 Proof. unfold pkey_eqb. destruct (pkey_dec k k); [reflexivity|contradiction]. Qed.
 
+(* ------------------------------------------------------------------ find_loom: the generated list walk = membership *)
+Lemma str_cmp_0 a : forall b, (str_cmp a b =? 0) = if name_dec a b then true else false.
+Proof.
+  induction a as [|x a IH]; intros [|y b]; cbn [str_cmp].
+  - destruct (name_dec [] []) as [E|E]; [reflexivity|exfalso; apply E; reflexivity].
+  - destruct (name_dec [] (y :: b)) as [E|E]; [discriminate E|reflexivity].
+  - destruct (name_dec (x :: a) []) as [E|E]; [discriminate E|reflexivity].
+  - destruct (x <? y) eqn:E1; [destruct (name_dec (x :: a) (y :: b)) as [E|E]; [injection E; lia|reflexivity]|].
+    destruct (y <? x) eqn:E2; [destruct (name_dec (x :: a) (y :: b)) as [E|E]; [injection E; lia|reflexivity]|].
+    assert (x = y) by lia. subst y. rewrite IH.
+    destruct (name_dec a b) as [E|E]; destruct (name_dec (x :: a) (x :: b)) as [E'|E']; try reflexivity.
+    + exfalso. apply E'. rewrite E. reflexivity.
+    + exfalso. apply E. injection E'. auto.
+Qed.
+
+Lemma find_names_eq n : forall l b,
+  dl_find_names l (fun loom => MetaBuildPre.bind (rd_loom_id loom) (fun id_1 => ret (Z.eqb (strcmp_c id_1 (Some n)) 0))) b =
+  ROk (if in_dec name_dec n l then Some (LTab n) else None, b).
+Proof.
+  induction l as [|a r IH]; intros b; cbn [dl_find_names]; [reflexivity|].
+  rewrite bind_run. unfold rd_loom_id at 1. cbn [loom_key]. rewrite bind_run. unfold ret at 1. cbn [strcmp_c]. rewrite str_cmp_0.
+  destruct (name_dec a n) as [E|E].
+  - subst a. destruct (in_dec name_dec n (n :: r)) as [I|I]; [reflexivity|exfalso; apply I; left; reflexivity].
+  - rewrite IH. destruct (in_dec name_dec n r) as [I|I]; destruct (in_dec name_dec n (a :: r)) as [J|J]; try reflexivity.
+    + exfalso. apply J. right. exact I.
+    + exfalso. destruct J as [J|J]; [exact (E J)|exact (I J)].
+Qed.
+
+Lemma find_loom_eq n b :
+  MetaBuild_gen.find_loom tt (Some n) b = ROk (if in_dec name_dec n (st_looms (b_st b)) then Some (LTab n) else None, b).
+Proof.
+  unfold MetaBuild_gen.find_loom. rewrite bind_run. unfold dl_find_looms. rewrite find_names_eq.
+  destruct (in_dec name_dec n (st_looms (b_st b))); reflexivity.
+Qed.
+
+(* ------------------------------------------------------------------ the generated *_init_begin = the primitives they replace *)
+Lemma dlen_small prefix v : (length prefix <= 100)%nat -> (dlen prefix v >=? 4096) = false.
+Proof. intros H. unfold dlen. pose proof (MarkJsonProofs.render_len v). rewrite Z.geb_leb. lia. Qed.
+
+Lemma proc_init_begin_eq pid b :
+  MetaBuild_gen.proc_init_begin (Some PPend) pid b = ROk (0, with_pproc b (fst (b_pproc b), pid)).
+Proof.
+  unfold MetaBuild_gen.proc_init_begin, bind_, MetaBuildPre.bind, memset_proc, set_proc_gindex, set_proc_appid, set_proc_rank, set_proc_nranks,
+    set_proc_pid, on_pproc, snprintf_d_proc_id, ite.
+  rewrite dlen_small by (cbn [length]; lia). destruct b; reflexivity.
+Qed.
+Lemma thread_init_begin_eq tid b :
+  MetaBuild_gen.thread_init_begin (Some TPend) tid b = ROk (0, with_pthr b (fst (b_pthr b), tid)).
+Proof.
+  unfold MetaBuild_gen.thread_init_begin, bind_, MetaBuildPre.bind, memset_thread, set_thread_state, set_thread_gindex, set_thread_tid,
+    on_pthr, snprintf_d_thread_id, ite.
+  rewrite dlen_small by (cbn [length]; lia). destruct b; reflexivity.
+Qed.
+
+(* a loom name fits in loom->name: shorter than PATH_MAX (MetaDefs has no bound on names) *)
+Definition name_fits (s : stream_meta) : Prop := Z.of_nat (length (s_loom s)) < 4096.
+
+Lemma loom_init_begin_eq n b : Z.of_nat (length n) < 4096 ->
+  MetaBuild_gen.loom_init_begin (Some LPend) (Some n) b = if valid_name n then ROk (0, with_ploom b n) else RErr E_FAIL.
+Proof.
+  intros F. unfold MetaBuild_gen.loom_init_begin, bind_, MetaBuildPre.bind, memset_loom, on_ploom, strchr_c, valid_name, SLASH.
+  destruct (existsb (Z.eqb 47) n); cbn [is_null negb ite]; [reflexivity|].
+  unfold snprintf_s_loom_name, set_hostname_loom, rd_loom_name, set_loom_id, set_loom_rank_min, cpu_init_begin_vcpu, cpu_set_loom_vcpu, on_ploom, ite.
+  assert (G : (Z.of_nat (length n) >=? 4096) = false) by (rewrite Z.geb_leb; lia). rewrite G.
+  assert (Fn : firstn (Z.to_nat (4096 - 1)) n = n) by (apply firstn_all2; lia).
+  destruct b as [x pl pp pt lp dt]; cbn [b_ploom with_ploom b_st b_pproc b_pthr b_lpt b_data]. rewrite Fn. reflexivity.
+Qed.
+
+Ltac mrun := mrun0; rewrite ?proc_init_begin_eq, ?thread_init_begin_eq; mrun0.
+
 (* ------------------------------------------------------------------ create_loom *)
-Lemma create_loom_spec b s : looms_ok (b_st b) ->
+Lemma create_loom_spec b s : looms_ok (b_st b) -> name_fits s ->
   match part add_loom loom_claim (st_looms (b_st b)) s with
   | Ok l' =>
     match part add_cpu cpu_claim (st_cpus (b_st b)) s with
@@ -61,15 +132,16 @@ Lemma create_loom_spec b s : looms_ok (b_st b) ->
   | _ => create_loom tt s b = RErr E_FAIL
   end.
 Proof.
-  intros OK. rewrite part_loom. destruct b as [[looms [cpus rest]] pl pp pt lp dt].
+  intros OK NF. rewrite part_loom. destruct b as [[looms [cpus rest]] pl pp pt lp dt].
   unfold looms_ok in OK. cbn [b_st st_looms st_cpus fst snd] in *.
-  unfold create_loom. mrun.
-  destruct (in_dec name_dec (s_loom s) looms) as [I|I].
+  unfold create_loom. mrun. rewrite find_loom_eq. cbn [b_st st_looms fst].
+  destruct (in_dec name_dec (s_loom s) looms) as [I|I]; mrun.
   - assert (V : valid_name (s_loom s) = true) by (rewrite Forall_forall in OK; exact (OK _ I)). rewrite V. cbn [negb].
     rewrite name_eqb_refl.
     destruct (part add_cpu cpu_claim cpus s) as [c'| |]; try reflexivity.
     eexists. eexists. split; [reflexivity|]. repeat split.
-  - destruct (valid_name (s_loom s)) eqn:V; cbn [negb]; [|reflexivity].
+  - rewrite (loom_init_begin_eq _ _ NF).
+    destruct (valid_name (s_loom s)) eqn:V; cbn [negb]; mrun; [|reflexivity].
     rewrite name_eqb_refl.
     destruct (part add_cpu cpu_claim cpus s) as [c'| |]; try reflexivity.
     eexists. eexists. split; [reflexivity|]. repeat split.
@@ -185,14 +257,14 @@ Proof.
   destruct thread as [ht|]; reflexivity.
 Qed.
 
-Theorem stream_body_from_source b s : looms_ok (b_st b) ->
+Theorem stream_body_from_source b s : looms_ok (b_st b) -> name_fits s ->
   match step_gen add_cpu (b_st b) s with
   | Ok x' => exists b', stream_body tt s b = ROk (0, b') /\ b_st b' = x' /\
                b_lpt b' = b_lpt b ++ [lpt_of s] /\ b_data b' = b_data b ++ [(s, length (b_lpt b))]
   | _ => stream_body tt s b = RErr E_FAIL
   end.
 Proof.
-  intros OK. rewrite stream_body_run. pose proof (create_loom_spec b s OK) as CL.
+  intros OK NF. rewrite stream_body_run. pose proof (create_loom_spec b s OK NF) as CL.
   destruct (b_st b) as [looms [cpus [procs [apps [ranks threads]]]]] eqn:EB.
   unfold step_gen, par. cbn [fst snd st_looms st_cpus] in *.
   destruct (part add_loom loom_claim looms s) as [l'| |]; cbn [MetaDefs.bind]; try (rewrite CL; reflexivity).
@@ -214,16 +286,10 @@ Proof.
 Qed.
 
 (* ------------------------------------------------------------------ create_system: the loop over the streams *)
-(* for (struct stream *s = trace->streams; s; s = s->next) { body }: `return -1` in the body leaves create_system with -1,
-   `continue` and the end of the body go to the next stream *)
-Fixpoint run_streams (m : list stream_meta) (b : bstate) : rres bstate :=
-  match m with
-  | [] => ROk b
-  | s :: r => match stream_body tt s b with
-              | ROk (rc, b') => if rc =? 0 then run_streams r b' else RErr E_FAIL
-              | RErr e => RErr e
-              end
-  end.
+(* the GENERATED loop statement (create_system_loop: for_streams over trace->streams of the generated body, then return 0):
+   `return -1` in the body leaves create_system with -1, `continue` and the end of the body go to the next stream *)
+Definition run_streams (m : list stream_meta) (b : bstate) : rres bstate :=
+  match create_system_loop tt m b with ROk (_, b') => ROk b' | RErr e => RErr e end.
 
 Lemma step_looms_ok x s x' : looms_ok x -> step_gen add_cpu x s = Ok x' -> looms_ok x'.
 Proof.
@@ -235,46 +301,95 @@ Proof.
     apply Forall_app. split; [exact OK|]. constructor; [exact V|constructor].
 Qed.
 
-Lemma build_loop : forall m b, looms_ok (b_st b) ->
+Lemma loop_build : forall m b, looms_ok (b_st b) -> Forall name_fits m ->
   match run (step_gen add_cpu) m (b_st b) with
-  | Ok x' => exists b', run_streams m b = ROk b' /\ b_st b' = x' /\ b_lpt b' = b_lpt b ++ map lpt_of m
+  | Ok x' => exists b', for_streams m (fun s => stream_body tt s) b = ROk (tt, b') /\ b_st b' = x' /\ b_lpt b' = b_lpt b ++ map lpt_of m /\
+               b_data b' = b_data b ++ combine m (seq (length (b_lpt b)) (length m))
+  | _ => for_streams m (fun s => stream_body tt s) b = RErr E_FAIL
+  end.
+Proof.
+  induction m as [|s m IH]; intros b OK NF; cbn [run for_streams map].
+  - exists b. rewrite !app_nil_r. repeat split.
+  - inversion NF as [|? ? N1 N2]; subst.
+    pose proof (stream_body_from_source b s OK N1) as H. unfold bind_. rewrite bind_run.
+    destruct (step_gen add_cpu (b_st b) s) as [x1| |] eqn:ST; try (rewrite H; reflexivity).
+    destruct H as (b1 & E & S & L & D). rewrite E.
+    assert (OK1 : looms_ok (b_st b1)) by (rewrite S; exact (step_looms_ok _ _ _ OK ST)).
+    specialize (IH b1 OK1 N2). rewrite S in IH.
+    destruct (run (step_gen add_cpu) m x1) as [x2| |]; try exact IH.
+    destruct IH as (b2 & E2 & S2 & L2 & D2). exists b2. split; [exact E2|]. split; [exact S2|]. split.
+    + rewrite L2, L, <- app_assoc. reflexivity.
+    + rewrite D2, D, L, app_length, <- app_assoc. cbn [length app combine seq]. rewrite Nat.add_1_r. reflexivity.
+Qed.
+
+Lemma build_loop : forall m b, looms_ok (b_st b) -> Forall name_fits m ->
+  match run (step_gen add_cpu) m (b_st b) with
+  | Ok x' => exists b', run_streams m b = ROk b' /\ b_st b' = x' /\ b_lpt b' = b_lpt b ++ map lpt_of m /\
+               b_data b' = b_data b ++ combine m (seq (length (b_lpt b)) (length m))
   | _ => run_streams m b = RErr E_FAIL
   end.
 Proof.
-  induction m as [|s m IH]; intros b OK; cbn [run run_streams map].
-  - exists b. rewrite app_nil_r. repeat split.
-  - pose proof (stream_body_from_source b s OK) as H.
-    destruct (step_gen add_cpu (b_st b) s) as [x1| |] eqn:ST; try (rewrite H; reflexivity).
-    destruct H as (b1 & E & S & L & D). rewrite E. cbn [Z.eqb].
-    assert (OK1 : looms_ok (b_st b1)) by (rewrite S; exact (step_looms_ok _ _ _ OK ST)).
-    specialize (IH b1 OK1). rewrite S in IH.
-    destruct (run (step_gen add_cpu) m x1) as [x2| |]; try exact IH.
-    destruct IH as (b2 & E2 & S2 & L2). exists b2. split; [exact E2|]. split; [exact S2|].
-    rewrite L2, L, <- app_assoc. reflexivity.
+  intros m b OK NF. pose proof (loop_build m b OK NF) as H. unfold run_streams, create_system_loop, bind_. rewrite bind_run.
+  destruct (run (step_gen add_cpu) m (b_st b)) as [x'| |]; try (rewrite H; reflexivity).
+  destruct H as (b' & E & S & L & D). rewrite E. exists b'. repeat split; assumption.
 Qed.
 
 (* folding the generated per-stream body over the streams from the empty system = MetaDefs.raw: same refusals, same
    looms / CPUs / processes / app ids / ranks / threads in the same insertion order; the lpt map gives every stream its
    loom, process and thread *)
-Theorem system_build_raw_from_source : forall m,
+Theorem system_build_raw_from_source : forall m, Forall name_fits m ->
   match raw m with
-  | Ok x => exists b, run_streams m b0 = ROk b /\ b_st b = x /\ b_lpt b = map lpt_of m
+  | Ok x => exists b, run_streams m b0 = ROk b /\ b_st b = x /\ b_lpt b = map lpt_of m /\ b_data b = combine m (seq 0 (length m))
   | _ => run_streams m b0 = RErr E_FAIL
   end.
-Proof. intros m. exact (build_loop m b0 (Forall_nil _)). Qed.
+Proof. intros m NF. exact (build_loop m b0 (Forall_nil _) NF). Qed.
 
 (* ... hence MetaDefs.build (the sorts and the final checks of system_init, tied by unit cmp_meta, applied to that state) *)
-Theorem system_build_from_source : forall m,
+Theorem system_build_from_source : forall m, Forall name_fits m ->
   match run_streams m b0 with
   | ROk b => build m = finish (b_st b) /\ b_lpt b = map lpt_of m
   | RErr _ => forall sys, build m <> Ok sys
   end.
 Proof.
-  intros m. pose proof (system_build_raw_from_source m) as H. unfold build, build_gen. fold raw.
+  intros m NF. pose proof (system_build_raw_from_source m NF) as H. unfold build, build_gen. fold raw.
   destruct (raw m) as [x| |].
-  - destruct H as (b & E & S & L). rewrite E, S. split; [reflexivity|exact L].
+  - destruct H as (b & E & S & L & D). rewrite E, S. split; [reflexivity|exact L].
   - rewrite H. intros sys; discriminate.
   - rewrite H. intros sys; discriminate.
+Qed.
+
+(* ------------------------------------------------------------------ system_get_lpt on the system that was built *)
+Lemma find_combine : forall m k s i, find_data (combine m (seq k (length m))) s = Some i ->
+  exists j, i = (k + j)%nat /\ nth_error m j = Some s.
+Proof.
+  induction m as [|a m IH]; intros k s i; cbn [length seq combine find_data]; [discriminate|].
+  destruct (stream_dec a s) as [E|E].
+  - intros H. injection H as <-. exists 0%nat. split; [lia|]. subst. reflexivity.
+  - intros H. destruct (IH (S k) s i H) as (j & Ej & Nj). exists (S j). split; [lia|exact Nj].
+Qed.
+Lemma find_in : forall m k s, In s m -> find_data (combine m (seq k (length m))) s <> None.
+Proof.
+  induction m as [|a m IH]; intros k s I; [contradiction|]. cbn [length seq combine find_data].
+  destruct (stream_dec a s) as [E|E]; [discriminate|]. destruct I as [I|I]; [contradiction|]. exact (IH (S k) s I).
+Qed.
+
+(* on the system the generated loop built, the generated system_get_lpt never dies and hands every stream of the trace the
+   slot that holds its own loom, process and thread *)
+Theorem system_get_lpt_from_source : forall m b s, Forall name_fits m -> run_streams m b0 = ROk b ->
+  exists r, system_get_lpt s b = ROk (r, b) /\
+    (forall i, r = Some i -> nth_error (b_lpt b) i = Some (lpt_of s)) /\ (In s m -> r <> None).
+Proof.
+  intros m b s NF R. pose proof (system_build_raw_from_source m NF) as H.
+  destruct (raw m) as [x| |]; try (rewrite H in R; discriminate R).
+  destruct H as (b' & E & S & L & D). rewrite E in R. injection R as ->.
+  unfold system_get_lpt. rewrite bind_run. unfold stream_data_get at 1.
+  destruct (find_data (b_data b) s) as [i|] eqn:F; cbn [is_null ite].
+  - rewrite D in F. destruct (find_combine m 0 s i F) as (j & Ej & Nj). cbn [Nat.add] in Ej. subst j.
+    assert (NL : nth_error (b_lpt b) i = Some (lpt_of s)) by (rewrite L; exact (map_nth_error lpt_of i m Nj)).
+    rewrite bind_run. unfold rd_lpt_stream. rewrite NL. cbn [lpt_of l_stream]. unfold stream_eqb.
+    destruct (stream_dec s s) as [_|N]; [|contradiction]. cbn [negb ite].
+    exists (Some i). split; [reflexivity|]. split; [intros i' H; injection H as <-; exact NL|intros _; discriminate].
+  - exists None. split; [reflexivity|]. split; [discriminate|]. intros I. exfalso. apply (find_in m 0 s I). rewrite <- D. exact F.
 Qed.
 
 (* ------------------------------------------------------------------ examples, by computation on the generated code *)
